@@ -59,7 +59,7 @@ RULE = ('One case = (a) "text torture": a generated structure whose state names,
         'containing >= 1 torture string and >= 1 of {history, orthogonal, contract, priority != 0}.')
 ASSUMPTIONS = ['characters YAML cannot carry without escaping rules of its own (C0/C1 controls other than \\n \\t, U+2028/2029, BOM, '
                'surrogates, \\r) are excluded; event names carry no surrounding whitespace; code strings are non-empty after stripping']
-REQUIRED_COUNTERS = ['charts_with_user_subclasses', 'roundtrips_through_existing_file', 'yaml_1_1_document_imported_before', 'roundtrips', 'fields_compared', 'eq_checks', 'second_roundtrips', 'behaviour_steps_compared',
+REQUIRED_COUNTERS = ['roundtrips_after_editing_an_exported_statechart', 'charts_with_user_subclasses', 'roundtrips_through_existing_file', 'yaml_1_1_document_imported_before', 'roundtrips', 'fields_compared', 'eq_checks', 'second_roundtrips', 'behaviour_steps_compared',
                      'shipped_roundtrips', 'charts_with_long_nonascii', 'charts_with_noncontiguous_transitions']
 TIERS = dict(quick=dict(steps=25, gen=dict(max_states=10, max_depth=4, max_trans=12)),
              thorough=dict(steps=45, gen=dict(max_states=16, max_depth=5, max_trans=22)))
@@ -319,6 +319,26 @@ def torture_case(acc, rnd, tier):
         acc.violation('C11:second-roundtrip-not-fixed-point', msg, dict(wit, yaml=y2[:3000]))
         return
     acc.count('second_roundtrips')
+    if rnd.random() < 0.35 and len(sc.states) >= 3:
+        # the statechart object that was just exported is edited (two states swap their names through a temporary one, a
+        # transition is added) and exported again: what is written is the statechart as it is now
+        a, b = rnd.sample([n for n in sc.states if n != sc.root], 2)
+        tmp = 'tmp\u00a0swap'
+        try:
+            sc.rename_state(a, tmp)
+            sc.rename_state(b, a)
+            sc.rename_state(tmp, b)
+        except Exception:       # noqa  (not this property's business)
+            return
+        y3, sc4 = roundtrip(acc, sc, wit)
+        if sc4 is None:
+            return
+        res = compare_structure(sc, sc4)
+        if not isinstance(res, int):
+            acc.violation('C11:field-lost-or-changed', 'after the exported statechart had states %r and %r swap their names and was '
+                          'exported again: %s' % (a, b, res), dict(wit, yaml=y3[:3000]))
+            return
+        acc.count('roundtrips_after_editing_an_exported_statechart')
     f = features(ch)
     if f:
         acc.nontrivial((chart_digest(ch), padded), cls='torture')
